@@ -13,6 +13,16 @@ import (
 // source text, ahead of everything else.
 func (rc *ruleCtx) prologue() {
 	x, in := rc.x, rc.x.In
+	if in.Origin == "Y" && in.Kind == "modflow" && in.Mod != nil && in.Mod.Checked {
+		// V22: modifier mode evaluates the directive's argument expressions at the call site (same text, same
+		// order), hands each through a helper that returns it unchanged, and binds it in the prologue to the
+		// name its source position determines
+		if len(in.Mod.Problems) == 0 {
+			rc.s.OK("V22", rc.key("argument expressions reach their hoisted names unchanged"), rc.pos(in.Wrapper), fmt.Sprintf("%d expressions traced through call site, helper and prologue", in.Mod.Exprs))
+		} else {
+			rc.s.Bad("V22", rc.key("argument expressions reach their hoisted names unchanged"), rc.pos(in.Wrapper), "modifier mode: "+strings.Join(in.Mod.Problems, "; "))
+		}
+	}
 	if in.Origin != "Y" || in.Kind == "modflow" {
 		return
 	}
